@@ -37,6 +37,30 @@ class IntT(_Leaf):
 
     def make(self, mk, name, idx=None):
         v = self.leaf(mk, name, idx)
+        if idx is not None and z3.is_app(v) and v.num_args() >= 1 and (self.lo is not None or self.hi is not None):
+            # element of a sequence: the range holds for every index (stated once per element function)
+            done = getattr(mk, '_ranged', None)
+            if done is None:
+                done = set()
+                try:
+                    mk._ranged = done
+                except Exception:
+                    pass
+            key = v.decl().name()
+            if key not in done:
+                done.add(key)
+                n = v.num_args()
+                keep = [v.arg(i) for i in range(n - 1)] if getattr(mk, 'uf_args', None) is not None and not isinstance(idx, tuple) else []
+                nb = n - len(keep)
+                bs = [z3.Int('x!rng%d' % i) for i in range(nb)]
+                app = v.decl()(*(keep + bs))
+                cs = []
+                if self.lo is not None:
+                    cs.append(app >= self.lo)
+                if self.hi is not None:
+                    cs.append(app < self.hi)
+                mk.assume(z3.ForAll(bs, z3.And(*cs), patterns=[app]))
+            return v
         if self.lo is not None:
             mk.assume(v >= self.lo)
         if self.hi is not None:
